@@ -268,3 +268,75 @@ Example C01_hc_opt_nonvacuous :
   (0 < cr_ret r < 30 /\ strict_valid [] (cr_out r) = Some l) /\
   (cr_ret r2 = 35 /\ strict_valid [] (cr_out r2) = Some l2) /\ opt_level 12 = true /\ opt_level 10 = true /\ all_level 5 = true.
 Proof. vm_compute. repeat split; reflexivity. Qed.
+
+(* 9. dict == usingDictCtxHc in LZ4HC_InsertAndGetWiderMatch / LZ4HC_searchExtDict (Model.HcChainDict, tied by direct calls
+      with a dictionary context prepared by LZ4_loadDictHC, hash-chain and LZ4MID dictionaries).  PARTIAL: one probe of the
+      dictionary chain at a genuine dictionary position installs only real matches; the whole walk (which needs a
+      consistency invariant of the dictionary context's tables) is stated as HcChainDictSound.dict_search_full_statement. *)
+From LZ4V Require Model.HcChainDict Proofs.HcChainDictSound.
+
+Theorem C01_hc_chain_dictctx_probe_partial :
+  forall vrd, (forall a, 0 <= vrd a < 256) ->
+  forall dct dDictLimit dictEndOffset g ip iLow iHigh,
+    0 <= dDictLimit /\ dDictLimit <= dictEndOffset /\ dictEndOffset < M32 /\ 0 <= HcChainDictSound.dlo dDictLimit dictEndOffset g /\
+    g <= iLow /\ iLow <= ip /\ ip + 4 <= iHigh /\ iHigh < M32 - 65536 ->
+  forall withBack l longest offset sBack,
+    dDictLimit <= l <= dictEndOffset - 4 -> (withBack = false -> iLow = ip) ->
+    let r := HcChainDict.dict_loop vrd dct dDictLimit dictEndOffset ip iLow iHigh ip g withBack 1 l (l + g - dictEndOffset) longest offset sBack in
+    r = (longest, offset, sBack) \/
+    (let '(lg, off, bk) := r in
+     longest < lg /\ match_ok vrd (HcChainDictSound.dlo dDictLimit dictEndOffset g) (ip + bk) off lg /\ iLow <= ip + bk /\ bk <= 0 /\
+     ip + bk + lg <= iHigh /\ ip + 4 <= ip + bk + lg).
+Proof. exact HcChainDictSound.dict_probe_sound. Qed.
+Print Assumptions C01_hc_chain_dictctx_probe_partial.
+
+(* the search loop with the attempts left is the search loop *)
+Theorem C01_hc_chain_dictctx_loop_n :
+  forall vrd prefixIdx dictIdx ct ip iLow iHigh pa swap fav nb s,
+    option_map fst (HcChainDict.wider_loop_n vrd prefixIdx dictIdx ct ip iLow iHigh pa swap fav nb s)
+    = HcChain.wider_loop vrd prefixIdx dictIdx ct ip iLow iHigh pa swap fav nb s.
+Proof. exact HcChainDictSound.wider_loop_n_fst. Qed.
+Print Assumptions C01_hc_chain_dictctx_loop_n.
+
+(* Non-vacuity: a 12-byte dictionary "abcdefghijkl" right below the prefix "abcdefgh....": the probe at dictionary
+   index 65536 finds the 8-byte match at offset 12 *)
+Example C01_hc_chain_dictctx_nonvacuous :
+  let l := [97;98;99;100;101;102;103;104;105;106;107;108] ++ [97;98;99;100;101;102;103;104;1;2;3;4;5;6;7;8;9;10;11;12] in
+  let vrd := fun p => get (mem_of_list (65536 - 12) l) p in
+  HcChainDict.dict_loop vrd (HcChain.mkCT empty 0) 65536 (65536 + 12) 65536 65536 (65536 + 15) 65536 65536 false 1 65536 (65536 - 12) 3 0 0
+  = (8, 12, 0).
+Proof. vm_compute. reflexivity. Qed.
+
+(* the whole dictCtx search: LZ4HC_InsertAndGetWiderMatch with dict == usingDictCtxHc, for ANY dictionary-context tables
+   that satisfy the consistency invariant dgood (every hash entry / chain successor is out of reach or a genuine position
+   in [dictLimit, end - 4]), in every configuration: never out of fuel, the working tables keep their invariant, a result
+   longer than `longest` is a real match, the history starting at the dictionary's first byte *)
+From LZ4V Require Proofs.HcChainDictLoad.
+Theorem C01_hc_chain_dictctx_search :
+  forall vrd prefixIdx dictIdx dht dct dDictLimit dictEndOffset t B q iLow iHigh longest0 nb pa swap fav,
+    (forall a, 0 <= vrd a < 256) -> 65536 <= dictIdx /\ dictIdx <= prefixIdx ->
+    65536 <= dDictLimit /\ dDictLimit <= dictEndOffset /\ dictEndOffset <= 1073741824 + 131072 /\ dictEndOffset - dDictLimit <= dictIdx ->
+    (forall k, HcChainDictSound.dgood dDictLimit dictEndOffset (get dht k)) ->
+    (forall x, dDictLimit <= x <= dictEndOffset - 4 ->
+       0 <= HcChain.delta_next dct x <= x /\ HcChainDictSound.dgood dDictLimit dictEndOffset (x - HcChain.delta_next dct x)) ->
+    HcChainSearch.TB t B -> B <= q -> prefixIdx <= iLow -> iLow <= q -> q + 4 <= iHigh -> iHigh < M32 - 65536 ->
+    exists m t', HcChainDict.insertAndGetWiderMatch_dict vrd prefixIdx dictIdx dht dct dDictLimit dictEndOffset t q iLow iHigh longest0 nb pa swap fav = Some (m, t') /\
+      HcChainSearch.TB t' q /\ HcChain.t_ntu t' = q /\ longest0 <= HcChain.hm_len m /\
+      (longest0 < HcChain.hm_len m ->
+        match_ok vrd (dictIdx - (dictEndOffset - dDictLimit)) (q + HcChain.hm_back m) (HcChain.hm_off m) (HcChain.hm_len m) /\
+        iLow <= q + HcChain.hm_back m /\ HcChain.hm_back m <= 0 /\ q + HcChain.hm_back m + HcChain.hm_len m <= iHigh /\
+        q + 4 <= q + HcChain.hm_back m + HcChain.hm_len m).
+Proof. exact HcChainDictSound.wider_dict_sound. Qed.
+Print Assumptions C01_hc_chain_dictctx_search.
+
+(* LZ4_loadDictHC at a hash-chain / optimal level (fresh state, LZ4HC_Insert of the dictionary, n <= 64 KB) leaves tables
+   that satisfy that invariant *)
+Theorem C01_hc_chain_dictctx_loadDict :
+  forall vrd P n, 65536 <= P /\ P + n < M32 -> 0 <= n <= 65536 ->
+    let t := HcChain.insert vrd P (HcChain.mkHT empty (HcChain.mkCT empty 0) P) (P + n - 3) in
+    4 <= n ->
+    (forall k, HcChainDictSound.dgood P (P + n) (get (HcChain.t_hash t) k)) /\
+    (forall x, P <= x <= P + n - 4 ->
+       0 <= HcChain.delta_next (HcChain.t_chain t) x <= x /\ HcChainDictSound.dgood P (P + n) (x - HcChain.delta_next (HcChain.t_chain t) x)).
+Proof. exact HcChainDictLoad.loadDict_tables_good. Qed.
+Print Assumptions C01_hc_chain_dictctx_loadDict.
